@@ -260,6 +260,7 @@ fn mix_stats(prog: &Prog) -> (bool, bool, usize) {
 
 impl Prop for Faithful {
     type Case = Case;
+    crate::prog_shrink!();
     fn name(&self) -> String {
         "C17/faithful".into()
     }
